@@ -14,22 +14,28 @@ PROPERTIES = ["C16"]
 MANIFEST = {
     "C16": dict(
         engine="LRU",
-        text="Exhaustive TLC exploration of specs/LRU (threads executing Put/Get/LoadAndDelete/Len/Size/Range as the "
-             "code's step sequence between the verif yield points: index access, Lock + list/size update with the evict "
-             "loop, Unlock, index Store, every error exit) for 2 threads x 2 operations, 3 x 1 (quick), 3 x 2 (thorough) "
-             "over 2 keys, value sizes 1-2(-3), capacity 2-3, and all sequential histories of <= 4 (quick) / 6 (thorough) "
-             "operations incl. a value whose Size() starts failing; EVERY transition is replayed on the real lru.Cache by "
-             "a scheduler that releases exactly one real goroutine per model step at the hooks, projecting Len/Size/Range/"
-             "RangeFILO and ll/index/size after each step; LRUProps.tla (capacity, size/len exactness, one consistent map, "
-             "linearizability against an atomic sequential LRU, LRU order, usable after failure) is evaluated by TLC on the "
-             "observed traces; plus free-running goroutine histories (no scheduling) judged for linearizability by TLC.",
-        note="Bounded: <=3 threads, <=2 operations per thread concurrently, 2 keys, 2-3 values. Interleavings at yield-"
-             "point granularity (the hooks), not at instruction granularity; Range/RangeFILO are observed as one step "
-             "(their unlocked iteration is not interleaved with a locked section; data races are out of scope). A mutex "
-             "leak is recognised from the goroutine dump (call parked in Lock/RLock of the cache mutex while no parked "
-             "goroutine holds it). Traces that reproduce the model's prediction exactly take the verdict TLC computed "
-             "for the identical (action, observable) sequence while exporting the graph; all others, all traces with a "
-             "predicted violation and a random sample are re-judged by a separate TLC run on the observed data.",
+        text="Exhaustive TLC exploration of specs/LRU: threads executing Put/Get/LoadAndDelete/Len/Size/Range as the "
+             "code's step sequence between the verif yield points of lru.go (Lock + index access, list/size update with "
+             "the evict loop + index update, Unlock; every error exit; a value whose Size() starts failing), for 2 threads "
+             "x 2 operations and 3 x 1 (quick), additionally 2 x 3 and 3 x 2 (thorough) over 2-3 keys, value sizes 1-2, "
+             "capacity 2-3, and all sequential histories of <= 4 (quick) / <= 6 (thorough) operations incl. 3-key "
+             "configurations in which eviction has a choice of victim. EVERY transition is replayed on the real lru.Cache "
+             "by a scheduler that releases exactly one real goroutine per model step at the hooks; after each step "
+             "Len/Size/Range/RangeFILO and ll/index/size are projected (zero drift on the unchanged tree). LRUProps.tla "
+             "(capacity, size/len exactness, index and list one map, linearizability of every returned result against an "
+             "atomic sequential LRU, LRU order, usable after a failed call) is evaluated by TLC. Plus 400 / 4000 "
+             "free-running histories of 3 real goroutines (no scheduling; call/return logged) judged for "
+             "linearizability by TLC.",
+        note="Bounded: <=3 threads, <=2-3 operations per thread, 2-3 keys, 2-3 values, one or two poisoned values. "
+             "Interleavings at yield-point granularity, not instruction granularity; on code whose locking differs from "
+             "the specification the scheduler only reports drift and the free-running histories are what exposes races "
+             "(self-test: unlocked index access re-introduced in Put or LoadAndDelete is reported within 400 histories). "
+             "Range/RangeFILO are observed as single steps; data races are out of scope (C18). A mutex leak is recognised "
+             "from the goroutine dump (call parked in Lock/RLock of the cache mutex while no parked goroutine holds it), "
+             "not by waiting. A replayed trace that equals its model path step by step (same results, same observables) "
+             "takes the value of LRUProps!Viol that TLC computed for exactly that sequence while exporting the graph; "
+             "every other trace, a random sample of those, and all free-running histories are judged by separate TLC "
+             "runs on the observed data.",
         design="4 C16", technique="TLA+ spec + TLC exhaustive + scheduler-driven replay of every interleaving on real "
                                   "goroutines + TLC-judged observed traces + linearizability of free-running histories"),
 }
@@ -74,8 +80,14 @@ def configs(tier):
         return [
             cfg("seq6", 1, 6, 2, "<<1,2,3>>", "{<<>>}", ALL, poison=1),
             cfg("seq5c3", 1, 5, 3, "<<1,2>>", "{<<>>, <<<<2,2>>,<<1,1>>>>}", ALL, poison=2),
+            cfg("seqp", 1, 4, 2, "<<1,1,2>>", "{<<<<2,2>>,<<1,1>>>>, <<<<1,1>>,<<2,2>>>>}", ALL, poison=1),
+            cfg("seqk3", 1, 6, 2, "<<1,2>>", "{<<>>, <<<<2,1>>,<<1,1>>>>}", PGD, nk=3),
+            cfg("seqk3c3", 1, 4, 3, "<<1,2>>", "{<<<<3,1>>,<<2,1>>,<<1,1>>>>, <<<<1,1>>,<<2,2>>>>}", ALL, poison=1, nk=3),
             cfg("c2x2", 2, 2, 2, "<<1,2>>", "{<<>>, <<<<1,1>>>>, <<<<2,1>>,<<1,1>>>>}", ALL, poison=1),
+            cfg("c2x2k3", 2, 2, 2, "<<1,2>>", "{<<<<2,1>>,<<1,1>>>>}", PGDL, nk=3),
+            cfg("c2x3", 2, 3, 3, "<<1,2>>", "{<<<<2,2>>,<<1,1>>>>}", PGD),
             cfg("c3x1", 3, 1, 3, "<<1,2>>", "{<<>>, <<<<1,1>>>>, <<<<2,2>>,<<1,1>>>>}", ALL, poison=1),
+            cfg("c3x1k3", 3, 1, 2, "<<1,2>>", "{<<<<2,1>>,<<1,1>>>>}", ALL, poison=1, nk=3),
             cfg("c3x2", 3, 2, 2, "<<1,2>>", "{<<>>, <<<<1,1>>>>}", PGDL, poison=1, maxel=10),
             cfg("c3x2c3", 3, 2, 3, "<<1,2>>", "{<<<<2,2>>,<<1,1>>>>}", PGD, maxel=10),
         ]
@@ -334,7 +346,7 @@ def run(prop_id, tier, seed, replay=None):
         if only:
             cfgs = [c for c in cfgs if c["name"] in only.split(",")]
         ncpu = os.cpu_count() or 4
-        par = min(len(cfgs), 3)
+        par = min(len(cfgs), 4)
         workers = max(2, min(8, ncpu // par))
         with ThreadPoolExecutor(max_workers=par + 1) as ex:
             fb = ex.submit(build)
